@@ -325,11 +325,14 @@ pub struct Variant {
   pub lsp_outer_first: bool,
   /// `scan --stdin` drops `severity: off` rules
   pub stdin_filters_off: bool,
+  /// `scan --stdin` drops rules written for another language than the one stdin is parsed as
+  pub stdin_filters_lang: bool,
 }
 
 impl Variant {
   fn json(&self) -> Value {
-    json!({"ref": self.ref_forwards, "lsp": self.lsp_fixer_range, "outer": self.lsp_outer_first, "stdin_off": self.stdin_filters_off})
+    json!({"ref": self.ref_forwards, "lsp": self.lsp_fixer_range, "outer": self.lsp_outer_first, "stdin_off": self.stdin_filters_off,
+      "stdin_lang": self.stdin_filters_lang})
   }
   fn from_json(v: &Value) -> Self {
     Variant {
@@ -337,6 +340,7 @@ impl Variant {
       lsp_fixer_range: v["lsp"].as_bool().unwrap_or(false),
       lsp_outer_first: v["outer"].as_bool().unwrap_or(false),
       stdin_filters_off: v["stdin_off"].as_bool().unwrap_or(false),
+      stdin_filters_lang: v["stdin_lang"].as_bool().unwrap_or(false),
     }
   }
 }
@@ -344,6 +348,10 @@ impl Variant {
 const PROBE_EXPAND: &str = "id: p\nlanguage: JavaScript\nrule: {kind: identifier, regex: '^b$'}\nfix:\n  template: ''\n  expandEnd: {regex: '^,$'}\n";
 const PROBE_NESTED: &str = "id: p\nlanguage: JavaScript\nrule:\n  any: [{kind: expression_statement}, {kind: call_expression}]\nfix: 'X'\n";
 const PROBE_OFF: &str = "id: p\nlanguage: JavaScript\nseverity: 'off'\nrule: {kind: number}\n";
+/// a JavaScript rule first (stdin is parsed as JavaScript), then a TypeScript rule whose kind id
+/// (`debugger`) is the one of the JavaScript keyword `finally`
+const PROBE_LANG: &str = "id: p\nlanguage: JavaScript\nrule: {pattern: console.log($A)}\n---\nid: rts\nlanguage: TypeScript\nrule: {pattern: debugger}\n";
+const PROBE_LANG_TEXT: &str = "try { console.log(1) } finally { f() }\n";
 
 fn load_rules(yaml: &str) -> Option<Vec<RuleConfig<SupportLang>>> {
   from_yaml_string::<SupportLang>(yaml, &GlobalRules::default()).ok()
@@ -383,7 +391,9 @@ pub fn probe_variant() -> Variant {
   let dir = tempfile::tempdir().expect("tempdir");
   let (_, out) = run_cli(dir.path(), &["scan", "--stdin", "--inline-rules", PROBE_OFF, "--json=stream"], Some("f(1)"), 20);
   let stdin_filters_off = out.trim().is_empty();
-  Variant { ref_forwards, lsp_fixer_range, lsp_outer_first, stdin_filters_off }
+  let (_, out) = run_cli(dir.path(), &["scan", "--stdin", "--inline-rules", PROBE_LANG, "--json=stream"], Some(PROBE_LANG_TEXT), 20);
+  let stdin_filters_lang = !parse_json_stream(&out).iter().any(|r| r["ruleId"] == json!("rts"));
+  Variant { ref_forwards, lsp_fixer_range, lsp_outer_first, stdin_filters_off, stdin_filters_lang }
 }
 
 // ---------------------------------------------------------------------------------------
@@ -987,6 +997,11 @@ fn strip_ansi(s: &str) -> String {
   out
 }
 
+/// a match as the model receives it: the node's byte range and the environment
+fn match_json(nm: ast_grep_core::NodeMatch<'_, SDoc>) -> Value {
+  json!({"n": [nm.range().start, nm.range().end], "env": env_json(nm.get_env())})
+}
+
 struct FindObs {
   args: Value,
   result: Value,
@@ -1112,18 +1127,19 @@ fn findings_case(v: &Variant, yamls: &[String], srcs: &[String]) -> Option<Vec<F
         k.sort();
         k
       };
-      // (a rule written for another language says nothing about a JavaScript document)
-      let ms: Vec<Value> = if r.language != SupportLang::JavaScript {
-        vec![]
-      } else {
-        grep
-          .root()
-          .find_all(&r.matcher)
-          .map(|nm| json!({"n": [nm.range().start, nm.range().end], "env": env_json(nm.get_env())}))
-          .collect()
-      };
-      rj.push(json!({"id": r.id, "sev": sev_name(&r.severity), "msg": r.message, "note": r.note, "keys": keys,
-        "fix": r.matcher.fixer.is_some(), "ms": ms}));
+      // a rule written for another language: `ms` is what its matcher answers on the JavaScript
+      // tree (numeric kind ids of another grammar) -- what a front end reports that does not select
+      // rules by language; `own_ms` its matches on the text parsed in the rule's own language, which
+      // is the tree `sg test` builds for a case of that rule
+      let foreign = r.language != SupportLang::JavaScript;
+      let ms: Vec<Value> = grep.root().find_all(&r.matcher).map(match_json).collect();
+      let mut rule = json!({"id": r.id, "sev": sev_name(&r.severity), "msg": r.message, "note": r.note, "keys": keys,
+        "fix": r.matcher.fixer.is_some(), "foreign": foreign, "ms": ms});
+      if foreign {
+        let own = r.language.ast_grep(src.as_str());
+        rule["own_ms"] = json!(own.root().find_all(&r.matcher).map(match_json).collect::<Vec<Value>>());
+      }
+      rj.push(rule);
     }
     let args = json!({"v": v.json(), "src": src, "yamls": yamls, "rules": rj});
     let result = json!({"file": file, "pretty": fpretty, "compact": fcompact, "github": github, "stdin": stdin, "test": test, "lsp": lspd});
@@ -1234,7 +1250,8 @@ pub fn frontends_findings(ctx: &Ctx, rng: &mut Rng, o: &mut Out) {
     }
     // a rule for ANOTHER language at the end of the rule set (never first: stdin is read in the
     // language of the first rule): it applies to none of the JavaScript texts, through any front
-    // end — its kind ids belong to another grammar (TypeScript `debugger` = JavaScript `finally`)
+    // end — its kind ids belong to another grammar (TypeScript `debugger` = JavaScript `finally`);
+    // the model receives the rule as `foreign` together with what its matcher says on this tree
     if i % 3 == 1 {
       let foreign = [
         "id: rts\nlanguage: TypeScript\nseverity: warning\nmessage: ts only\nrule: {pattern: debugger}\n",
